@@ -252,6 +252,25 @@ fn main() {
                                 }
                             }
                         }
+                        // a well-formed program of the reference grammar (GleamSyn), damaged at every position: cut off after
+                        // the token, the token deleted, the token replaced by each of a few tokens that end or continue constructs
+                        "prog" => {
+                            let toks: Vec<&str> = case["out"].as_array().unwrap().iter().filter(|t| t["r"] == "tok").map(|t| t["t"].as_str().unwrap()).collect();
+                            let join = |v: &[&str]| format!("fn e() {{ 1 }}\n{}\nfn g() {{ 1 }}\n", v.join(" "));
+                            const REPL: &[&str] = &[")", "}", ",", "fn", "1", "as", "|", "->", "if", ".", "=", "type", "x"];
+                            for i in 0..toks.len() {
+                                texts.push(("prog@cut".into(), format!("fn e() {{ 1 }}\n{}", toks[..=i].join(" "))));
+                                let mut d: Vec<&str> = toks.clone();
+                                d.remove(i);
+                                texts.push(("prog@del".into(), join(&d)));
+                                // two of the replacement tokens per position (all of them over the positions of all programs)
+                                for k in 0..2 {
+                                    let mut r: Vec<&str> = toks.clone();
+                                    r[i] = REPL[(ci + i * 2 + k) % REPL.len()];
+                                    texts.push(("prog@rep".into(), join(&r)));
+                                }
+                            }
+                        }
                         "text" => texts.push((case["ctx"].as_str().unwrap_or("text").to_string(), case["text"].as_str().unwrap().to_string())),
                         "tower" => {}
                         o => panic!("mode {o}"),
